@@ -5,6 +5,7 @@ import (
 	"go/ast"
 	"go/token"
 	"go/types"
+	"regexp"
 	"regexp/syntax"
 	"sort"
 	"strings"
@@ -647,10 +648,26 @@ func checkNameRanges(c *Ctx, info *types.Info, body *ast.BlockStmt, where string
 				// a package-local helper (input, name) that returns NewRange(PositionAt(Index()-len(name)), Position())
 				okHelper := false
 				for _, hfd := range allFuncDeclsOfPkgPath(c, pkgParser) {
-					if hfd.Name.Name != fn.Name() || hfd.Recv != nil || hfd.Body == nil || len(hfd.Body.List) != 1 {
+					if hfd.Name.Name != fn.Name() || hfd.Recv != nil || hfd.Body == nil || len(hfd.Body.List) == 0 {
 						continue
 					}
-					ret, isRet := hfd.Body.List[0].(*ast.ReturnStmt)
+					// (plain definitions of locals in front of the return are substituted: to := pi.Position())
+					localText := map[string]string{}
+					plain := true
+					for _, st := range hfd.Body.List[:len(hfd.Body.List)-1] {
+						as, isAs := st.(*ast.AssignStmt)
+						if !isAs || as.Tok != token.DEFINE || len(as.Lhs) != 1 || len(as.Rhs) != 1 {
+							plain = false
+							break
+						}
+						if lid, isID := as.Lhs[0].(*ast.Ident); isID {
+							localText[lid.Name] = nodeText(c.fset, as.Rhs[0])
+						}
+					}
+					if !plain {
+						continue
+					}
+					ret, isRet := hfd.Body.List[len(hfd.Body.List)-1].(*ast.ReturnStmt)
 					if !isRet || len(ret.Results) != 1 {
 						continue
 					}
@@ -668,7 +685,12 @@ func checkNameRanges(c *Ctx, info *types.Info, body *ast.BlockStmt, where string
 						continue
 					}
 					h0, h1 := nodeText(c.fset, rc.Args[0]), nodeText(c.fset, rc.Args[1])
-					if h1 == prmNames[0]+".Position()" && strings.Contains(h0, prmNames[0]+".PositionAt(") && strings.Contains(h0, prmNames[0]+".Index() - len("+prmNames[1]+")") {
+					for nm, txt := range localText {
+						re := regexp.MustCompile(`\b` + regexp.QuoteMeta(nm) + `\b`)
+						h0, h1 = re.ReplaceAllLiteralString(h0, txt), re.ReplaceAllLiteralString(h1, txt)
+					}
+					h0 = strings.ReplaceAll(h0, " ", "")
+					if h1 == prmNames[0]+".Position()" && strings.Contains(h0, prmNames[0]+".PositionAt(") && (strings.Contains(h0, prmNames[0]+".Index()-len("+prmNames[1]+")") || strings.Contains(h0, prmNames[0]+".Position().Index-len("+prmNames[1]+")")) {
 						okHelper = true
 					}
 				}
@@ -961,7 +983,9 @@ func expressionTextFromInput(c *Ctx, rule string) {
 					if c2, ok := y.(*ast.CallExpr); ok {
 						if fn := calleeOf(info, c2); fn != nil && fn.Pkg() != nil && fn.Pkg().Path() == "strings" {
 							switch fn.Name() {
-							case "TrimSpace", "Trim", "TrimLeft", "TrimRight", "TrimPrefix", "TrimSuffix", "TrimFunc", "TrimLeftFunc", "TrimRightFunc", "ToLower", "ToUpper", "Replace", "ReplaceAll", "Title", "Map":
+							case "TrimRight", "TrimRightFunc", "TrimSuffix":
+								// cut from the end only: the text still begins at the recorded start, which is what the property states
+							case "TrimSpace", "Trim", "TrimLeft", "TrimPrefix", "TrimFunc", "TrimLeftFunc", "ToLower", "ToUpper", "Replace", "ReplaceAll", "Title", "Map":
 								transformed = "strings." + fn.Name()
 							}
 						}
